@@ -155,7 +155,22 @@ func (t *tr) inline(name string, body *ast.BlockStmt) string {
 	return wrap(".call", t.funcBody(body, name))
 }
 
+// call: a message handed to code outside the package (fmt, errors, ...) is a state access by that code (it may call
+// String(), read fields through reflection, ...): `.access "escape to <callee>"` precedes the call's own atom.
 func (t *tr) call(c *ast.CallExpr) string {
+	r := t.call0(c)
+	if !strings.HasPrefix(r, "(.atom (.other") {
+		return r
+	}
+	for _, a := range c.Args {
+		if tv, ok := t.info.Types[a]; ok && tv.Type != nil && isMessage(tv.Type) {
+			return seq(atom(fmt.Sprintf(".access %q", "escape")), r)
+		}
+	}
+	return r
+}
+
+func (t *tr) call0(c *ast.CallExpr) string {
 	if tv, ok := t.info.Types[c.Fun]; ok && tv.IsType() {
 		return atom(`.other "conversion"`)
 	}
